@@ -60,6 +60,8 @@ MUTANTS = [
     m("C05-touch-token", "C05", "C05.R3", B, 'return results[0] == b"TOUCHED"', 'return results[0] == b"TOUCH"'),
     m("C05-incr-default-none", "C05", "C05.R4", B, "        self, key: Key, value: int, noreply: Optional[bool] = False\n    ) -> Optional[int]:\n        \"\"\"\n        The memcached \"incr\"", "        self, key: Key, value: int, noreply: Optional[bool] = None\n    ) -> Optional[int]:\n        \"\"\"\n        The memcached \"incr\""),
     m("C05-gets-no-cas", "C05", "C05.R2", B, 'self._fetch_cmd(b"gets", keys, True, key_prefix=self.key_prefix)', 'self._fetch_cmd(b"gets", keys, False, key_prefix=self.key_prefix)'),
+    m("C05-server-error-not-raised", "C05", "C05.R5", B, '        if line.startswith(b"SERVER_ERROR"):', '        if line.startswith(b"SERVER_ERR0R"):'),
+    m("C05-line-used-before-check", "C05", "C05.R5", B, "                self._raise_errors(line, cmd_name)\n                results.append(line)", "                results.append(line)\n                self._raise_errors(line, cmd_name)"),
     m("C05-silent-delete-ne", "C05", "", B, 'return results[0] == b"DELETED"', 'return results[0] != b"NOT_FOUND"', kind="silent"),
     # ---------------- C06
     m("C06-no-close-on-connect-failure", "C06", "C06.R1", B, "        except Exception:\n            sock.close()\n            raise\n\n        self.sock = sock", "        except Exception:\n            raise\n\n        self.sock = sock"),
